@@ -34,6 +34,9 @@ ScalarKinds ==
     str_len  |-> [type |-> "string", minLength |-> 2, maxLength |-> 3],
     str_pat  |-> [type |-> "string", pattern |-> "P_a_prefix"],
     str_enum |-> [type |-> "string", enum |-> <<"a", "ab">>],
+    \* the enum with the extension x-go-enum-ci spelled out: false keeps it strict, true folds the case
+    str_enum_ci0 |-> [type |-> "string", enum |-> <<"a", "ab">>, enumCI |-> FALSE],
+    str_enum_ci1 |-> [type |-> "string", enum |-> <<"a", "ab">>, enumCI |-> TRUE],
     str_date |-> [type |-> "string", format |-> "date"],
     bool     |-> [type |-> "boolean"] ]
 
@@ -41,6 +44,7 @@ ItemKinds ==
   [ i_int     |-> [type |-> "integer", minimum |-> 4],
     i_str     |-> [type |-> "string", maxLength |-> 2],
     i_strenum |-> [type |-> "string", enum |-> <<"a", "ab">>],
+    i_strenum_ci0 |-> [type |-> "string", enum |-> <<"a", "ab">>, enumCI |-> FALSE],
     i_bool    |-> [type |-> "boolean"] ]
 
 CFs == {"none", "csv", "ssv", "tsv", "pipes", "multi"}      \* "none": collectionFormat absent (csv by default)
@@ -114,7 +118,7 @@ ScalarLexemes(p) ==
   CASE p.type = "integer" -> {"0", "1", "2", "5", "6", "7", "12", "-1", "1.5", "x1"}
     [] p.type = "number"  -> {"0", "1", "1.5", "2.5", "5", "x1"}
     [] p.type = "boolean" -> {"true", "false", "1", "0", "x1"}
-    [] OTHER -> {"a", "ab", "abc", "abcd", "b", "7", "2020-01-02"}
+    [] OTHER -> {"a", "ab", "abc", "abcd", "b", "7", "2020-01-02", "AB"}
 
 Nested3Frags(p) ==
   LET L == IF p.items.items.items.type = "integer" THEN {"1", "2", "5"} ELSE {"a", "ab"} IN
@@ -130,7 +134,7 @@ ScalarFrags(p) ==
 ItemLexemes(it) ==
   CASE it.type = "integer" -> {"1", "2", "5", "x1"}
     [] it.type = "boolean" -> {"true", "0", "x1"}
-    [] OTHER -> {"a", "ab", "abc"}
+    [] OTHER -> IF Has(it, "enumCI") THEN {"a", "ab", "abc", "AB"} ELSE {"a", "ab", "abc"}
 SepToks == {",", "|", " ", "TAB"}
 ArrayRaws(it) ==
   LET L == ItemLexemes(it) IN
